@@ -335,6 +335,16 @@ def known_findings(prop):
     return [f for f in d.get("findings", []) if f.get("property") == prop]
 
 
+def fixed_finding_ids(prop):
+    """ids of former findings of `prop` that were repaired in /repo (entries under `fixed` carrying an id): their classes are
+    no longer tolerated by the check -- if the defect returns it is reported as a violation"""
+    p = os.path.join(VERIF, "known_findings.json")
+    if not os.path.exists(p):
+        return set()
+    d = json.load(open(p))
+    return set(f["id"] for f in d.get("fixed", []) if f.get("property") == prop and f.get("id"))
+
+
 GEN_OWNERS = {"Loc.lean": ("C07", "C10", "C19"), "C20.lean": ("C20",), "C18.lean": ("C18",), "C12.lean": ("C12",), "C11.lean": ("C11",), "C16.lean": ("C16",), "C13.lean": ("C13",)}
 
 
